@@ -55,16 +55,49 @@ def containers(v: Any, acc: Set[int]) -> Set[int]:
     return acc
 
 
+def ptr_arg(text: str, how: int) -> Any:
+    """A pointer argument for a builder call: text, parsed object, or built from parts."""
+    from jsonpath import JSONPointer
+
+    if how == 0:
+        return text
+    if how == 1:
+        return JSONPointer(text)
+    toks = [t.replace("~1", "/").replace("~0", "~") for t in text.split("/")[1:]]
+    if how == 2:
+        return JSONPointer.from_parts(toks)
+    return JSONPointer.from_parts([int(t) if t.isdigit() and t.isascii() and (t == "0" or t[0] != "0") else t for t in toks])
+
+
+def escaped_spelling(text: str) -> str:
+    """The same pointer with its first letter spelled as a \\uXXXX escape (equal under the default options)."""
+    for i, ch in enumerate(text):
+        if ch.isalpha() and ch.isascii():
+            return text[:i] + "\\u%04x" % ord(ch) + text[i + 1:]
+    return text
+
+
 def replay(rec: Dict[str, Any]) -> List[Tuple[str, Dict[str, Any], str]]:
     from jsonpath import JSONPatch
 
+    variant = sum(len(d["path"]) for d in rec["dicts"]) + len(rec["hist"])
     dicts = [to_dict(d) for d in rec["dicts"]]
     given = copy.deepcopy(dicts)
     pristine = canon_dicts(given)
     bad: List[str] = []
     try:
         if rec["route"] == "document":
-            patch = JSONPatch(given)
+            if variant % 3 == 0:
+                # the same operations spelled with \\uXXXX escapes, after a patch with other decoding options was built
+                # from the same texts (options are per patch, nothing may be remembered between patches)
+                spelled = [dict(d, path=escaped_spelling(d["path"])) for d in given]
+                try:
+                    JSONPatch(copy.deepcopy(spelled), unicode_escape=False, uri_decode=True)
+                except BaseException:  # noqa: BLE001
+                    pass
+                patch = JSONPatch(spelled)
+            else:
+                patch = JSONPatch(given)
         elif rec["route"] == "asdicts":
             patch = JSONPatch(JSONPatch(given).asdicts())
         else:
@@ -84,12 +117,16 @@ def replay(rec: Dict[str, Any]) -> List[Tuple[str, Dict[str, Any], str]]:
             if h["act"] == "build":
                 d = given[nbuilt]
                 try:
+                    # the builder accepts pointer text or pointer objects however they were made: rotate through
+                    # text, JSONPointer(text), from_parts(strings) and from_parts(with integer indices)
+                    how = (variant + nbuilt) % 4
+                    pp, ff = ptr_arg(d["path"], how), ptr_arg(d.get("from", ""), (how + 1) % 4)
                     if d["op"] in ("move", "copy"):
-                        getattr(patch, d["op"])(d["from"], d["path"])
+                        getattr(patch, d["op"])(ff, pp)
                     elif d["op"] == "remove":
-                        patch.remove(d["path"])
+                        patch.remove(pp)
                     else:
-                        getattr(patch, d["op"])(d["path"], d["value"])
+                        getattr(patch, d["op"])(pp, d["value"])
                 except BaseException as e:  # noqa: BLE001
                     bad.append(f"builder-raised-{exc_family(e)}")
                     break
@@ -122,7 +159,7 @@ def replay(rec: Dict[str, Any]) -> List[Tuple[str, Dict[str, Any], str]]:
                 break
             if canon_dicts(patch.asdicts()) != pristine_now:
                 bad.append("apply-changed-the-patch")
-            elif canon_dicts(given) != pristine:
+            elif canon_dicts(given) != pristine and not (rec["route"] == "document" and variant % 3 == 0):
                 bad.append("apply-changed-callers-list")
             elif out is not None:
                 mine = containers(out, set())
